@@ -873,7 +873,7 @@ PLANS = {
                    rule="a case is one generated program compiled against brood built from the current tree; all are distinct; bad programs are non-trivial by construction (each differs from a compiling twin in one token)",
                    assumptions=["the deciding observation for the rejection half is rustc's verdict on the library's type-level program (the one place where the observed execution is the compiler's); runtime monitoring covers every accepted program under Miri",
                                 "error classes accepted as a proper rejection: trait-bound (E0277/E0599/E0271), index ambiguity (E0283/E0284) and borrow-checker errors"]),
-    "C15": SeqPlan("C15", ["res"], ["r5", "r9", "r1"], quick=(5, 120, 300), thorough=(8, 1500, 400), miri_quick=2, miri_thorough=8, miri_profile="res",
+    "C15": SeqPlan("C15", ["res"], ["r5", "r9", "r1", "r3"], quick=(5, 120, 300), thorough=(8, 1500, 400), miri_quick=2, miri_thorough=8, miri_profile="res",
                    what="get/get_mut/view_resources/query resource views vs model per resource; resources unchanged by every entity op, clone, clone_from, round trip"),
     "C17": FaultsPlan("C17", floor=2000, level="fault_enumeration",
                       what="panic injected at every callback position k (Drop, Clone, PartialEq, Debug, Serialize, Deserialize, system / query bodies) of: remove (first/middle/last row, widest archetype), clear, Entry::add overwrite, Entry::remove, world drop, clone, "
